@@ -1253,7 +1253,7 @@ func TestCheck(t *testing.T) {
 			"the target while its probe hangs; in 45% of the histories - and in all long-wait ones - the endpoint had been disabled (at creation or later) and enabled again before, so its checker was restarted by a spec update; in 40% of the endpoint removals the endpoint is first marked disabled by one update while the streams run and removed by the next); (d) the other cluster and the remaining endpoints answer new requests. A third of the endpoint removals also add a server for which no client can be built (sync fails half-way, re-delivered 3 times); half of the cluster deletions list alias names (repeated, other case, own name) and every name, in variants, must answer 503 afterwards. Every object carries the metadata.generation the API would give it (1 at creation, +1 per spec/annotation change); some endpoint removals are delivered as deleted-and-re-created-with-another-server-list (one update, generation back at 1). In a third of the histories the remaining endpoints of cluster A are spelled with a trailing slash. Extra histories with the production bearer-token wiring (token-review / access-review webhooks over the controller, cache TTL > 0): reviews before, removal of the endpoint that served the first review (or cluster delete), then requests with new tokens: no TokenReview / SubjectAccessReview / proxied request may reach the removed target. Distinct = hash(removal kind, timing, topology, stream shapes).")
 		r.Assume("the 5 s promptness bound is judged only while the control streams of the same history deliver data (otherwise inconclusive)")
 		r.Assume("a probe logged by a stub within 500 ms after the removing sync returned is taken as already in flight when the sync returned")
-		r.Assume("not placed: a removal while the TCP dial to the upstream is still pending")
+		r.Assume("the connecting phase (TCP dial pending at the removal) needs a listener whose full accept backlog makes a dial hang (Linux, backlog 1); where that does not work it is reported as not placed")
 
 		if racePass {
 			os.Setenv("VERIF_NO_EVIDENCE", "1")
@@ -1263,9 +1263,12 @@ func TestCheck(t *testing.T) {
 		hung := tierN(r, 16, 40)
 		vkit.Sched.Enable(uint64(r.Seed), 0.02, 0.01, 0.0005)
 		wiredN := tierN(r, 40, 400)
-		r.Parallel(n+long+hung+wiredN, 16, func(i int, g *vkit.Rand) {
+		dialN := tierN(r, 24, 240)
+		r.Parallel(n+long+hung+wiredN+dialN, 16, func(i int, g *vkit.Rand) {
 			if p := vkit.Safely(func() {
 				switch {
+				case i >= n+long+hung+wiredN:
+					dialPendingScenario(r, i, g)
 				case i >= n+long+hung:
 					wiredRemoval(r, i, g)
 				case i < hung:
@@ -1285,6 +1288,11 @@ func TestCheck(t *testing.T) {
 		r.Set("max_observed_cancel_latency_ms", float64(latMax)/1e6)
 
 		r.Require(r.Counter("histories") >= int64((n+long+hung)*9/10), "too few histories completed")
+		if r.Counter("dial_pending_scenarios_without_a_backlog_listener")+r.Counter("dial_pending_scenarios_where_dials_did_not_hang") < int64(dialN)/2 {
+			r.Require(r.Counter("requests_with_the_dial_pending_at_removal") >= int64(dialN/2) && r.Counter("dial_pending_all-endpoints-removed") >= int64(dialN/6), "too few requests whose dial was pending at the removal / too few emptied server lists")
+		} else {
+			r.Set("dial_pending_not_available", "this sandbox does not give a hanging dial with a backlog-1 listener; the connecting phase was not placed")
+		}
 		r.Require(r.Counter("wired_histories") >= int64(wiredN*9/10), "too few histories with the production token authenticator completed")
 		r.Require(r.Counter("wired_reviews_after_removal_at_remaining_endpoints") >= int64(wiredN*3), "too few review requests were observed after an endpoint removal (production authenticator wiring)")
 		r.Require(r.Counter("target_streams_ended") >= int64(tierN(r, 200, 2500)), "too few in-flight requests to removed targets were observed ending")
